@@ -1037,33 +1037,8 @@ func isTallyStore(c *core.Ctx, fn *ssa.Function, a, v, qp *ir.Term) bool {
 					if !isLd {
 						continue // stores
 					}
-					for _, u := range *ld.Referrers() {
-						switch x := u.(type) {
-						case *ssa.DebugRef:
-						case *ssa.Call:
-							if sc := x.Call.StaticCallee(); sc == nil || sc.Pkg == nil || sc.Pkg.Pkg.Path() != "sync/atomic" {
-								return false
-							}
-						case *ssa.BinOp:
-							if ir.InAtomicSpinLoop(x.Block()) {
-								continue // compared with a high-water mark inside the gauge's own update loop
-							}
-							if x.Op != token.ADD && x.Op != token.SUB {
-								return false
-							}
-							for _, u2 := range *x.Referrers() {
-								st, isSt := u2.(*ssa.Store)
-								if !isSt {
-									return false
-								}
-								fa2, isFA := st.Addr.(*ssa.FieldAddr)
-								if !isFA || fieldNameOf(fa2) != a.Aux {
-									return false
-								}
-							}
-						default:
-							return false
-						}
+					if !tallyUses(ld, a.Aux, 0) {
+						return false
 					}
 				}
 			}
@@ -1110,4 +1085,78 @@ func sameStruct(t types.Type, fn *ssa.Function, field string) bool {
 		}
 	}
 	return false
+}
+
+
+// tallyUses: every use of v (a read of the tally field, or a value computed from it) is bookkeeping: an addition or
+// subtraction stored back into the field, a conversion used that way, an argument of a sync/atomic function, or a
+// comparison with a value read from a sync/atomic gauge (raising a high-water mark) - inside the gauge's
+// compare-and-swap loop or in a plain `if n > peak.Load() { peak.Store(n) }`.
+func tallyUses(v ssa.Value, field string, depth int) bool {
+	if depth > 4 || v.Referrers() == nil {
+		return depth <= 4
+	}
+	fromAtomic := func(x ssa.Value) bool {
+		for {
+			switch y := x.(type) {
+			case *ssa.Convert:
+				x = y.X
+				continue
+			case *ssa.ChangeType:
+				x = y.X
+				continue
+			case *ssa.Call:
+				sc := y.Call.StaticCallee()
+				return sc != nil && sc.Pkg != nil && sc.Pkg.Pkg.Path() == "sync/atomic"
+			}
+			return false
+		}
+	}
+	for _, u := range *v.Referrers() {
+		switch x := u.(type) {
+		case *ssa.DebugRef:
+		case *ssa.Convert:
+			if !tallyUses(x, field, depth+1) {
+				return false
+			}
+		case *ssa.ChangeType:
+			if !tallyUses(x, field, depth+1) {
+				return false
+			}
+		case *ssa.Call:
+			if sc := x.Call.StaticCallee(); sc == nil || sc.Pkg == nil || sc.Pkg.Pkg.Path() != "sync/atomic" {
+				return false
+			}
+		case *ssa.BinOp:
+			if ir.InAtomicSpinLoop(x.Block()) {
+				continue
+			}
+			switch x.Op {
+			case token.ADD, token.SUB:
+				for _, u2 := range *x.Referrers() {
+					st, isSt := u2.(*ssa.Store)
+					if !isSt {
+						return false
+					}
+					fa2, isFA := st.Addr.(*ssa.FieldAddr)
+					if !isFA || fieldNameOf(fa2) != field {
+						return false
+					}
+				}
+			case token.LSS, token.LEQ, token.GTR, token.GEQ, token.EQL, token.NEQ:
+				other := x.Y
+				if other == v {
+					other = x.X
+				}
+				if !fromAtomic(other) {
+					return false
+				}
+			default:
+				return false
+			}
+		default:
+			return false
+		}
+	}
+	return true
 }
